@@ -1,6 +1,6 @@
 #!/usr/bin/env python3
 """Property-specific ties beyond the shared differential run."""
-import glob, itertools, os, random, re, json
+import glob, itertools, os, random, re, json, sys
 
 import vlib
 
@@ -652,6 +652,19 @@ def c01_extra(tier, seed, lean):
             res['w'].append(dict(msg='C01 the wrapper monitor crashed (%s %s): %s' % (cxx, std, out[-400:]), op='harness/wrappers.cpp', config=key, case=[], impl=''))
     res['cases'] = len(checks)
     res['info'].update(c01_wrapper_checks=checks)
+    if tier == 'thorough':
+        # measurement of the tie itself (not a verdict): which lines / function bodies of the header the correspondence
+        # programs execute; cached per header + harness fingerprint
+        covp = os.path.join(d, 'header_coverage.json')
+        if not os.path.exists(covp):
+            vlib.run([sys.executable, os.path.join(vlib.VERIF, 'tools', 'coverage.py'), '--every', '3', '--out', covp], timeout=3000)
+        try:
+            cv = json.load(open(covp))
+            res['info'].update(header_lines_instantiated_by_tie_programs=cv['instantiated_code_lines'], header_lines_executed=cv['executed_code_lines'],
+                               function_bodies_known=cv['bodies_total'], function_bodies_executed=cv['bodies_executed'],
+                               function_bodies_instantiated_never_run=cv['bodies_instantiated_only'], function_bodies_never_instantiated=cv['bodies_absent'])
+        except Exception as e:
+            res['info'].update(header_coverage_error=str(e)[:200])
     return res
 
 
